@@ -1228,26 +1228,29 @@ def check_h(ck, repo):
         sp = ci.methods.get("set_params")
         if sp is None:
             continue
-        recv = _setparams_receivers(sp)
+        recv = dict(_setparams_receivers(sp))
+        # direct form, whatever the spelling of the keyword mapping: self.A.set_params(**<expr>)
+        for c_ in own_nodes(sp.node):
+            if isinstance(c_, ast.Call) and isinstance(c_.func, ast.Attribute) and c_.func.attr == "set_params" and is_self_attr(c_.func.value) and any(k.arg is None for k in c_.keywords):
+                if not any(a_ == c_.func.value.attr for a_, _i in recv.values()):
+                    recv[f"\0{c_.func.value.attr}"] = (c_.func.value.attr, None)
         if not recv:
             continue
         cfg = build_cfg(sp.node)
         reach = cfg.reachable()
         for var, (attr, _idx) in sorted(recv.items()):
-            calls = [
-                n
-                for n in cfg.nodes
-                if n.id in reach
-                and n.ast is not None
-                and n.kind in ("stmt", "return", "test")
-                and any(
-                    isinstance(c, ast.Call)
-                    and isinstance(c.func, ast.Attribute)
-                    and c.func.attr == "set_params"
-                    and any(k.arg is None and isinstance(k.value, ast.Name) and k.value.id == var for k in c.keywords)
-                    for c in ast.walk(n.ast)
-                )
-            ]
+            if var.startswith("\0"):
+                calls = [n for n in cfg.nodes if n.id in reach and n.ast is not None and n.kind in ("stmt", "return", "test") and any(isinstance(c, ast.Call) and isinstance(c.func, ast.Attribute) and c.func.attr == "set_params" and is_self_attr(c.func.value, attr) for c in ast.walk(n.ast))]
+                var = "..."
+            else:
+                calls = [
+                    n
+                    for n in cfg.nodes
+                    if n.id in reach
+                    and n.ast is not None
+                    and n.kind in ("stmt", "return", "test")
+                    and any(isinstance(c, ast.Call) and isinstance(c.func, ast.Attribute) and c.func.attr == "set_params" and any(k.arg is None and isinstance(k.value, ast.Name) and k.value.id == var for k in c.keywords) for c in ast.walk(n.ast))
+                ]
             stores = {n.id: n for n in cfg.nodes if n.id in reach and n.kind == "stmt" and isinstance(n.ast, (ast.Assign, ast.AnnAssign, ast.AugAssign)) and any(is_self_attr(t, attr) for t in assign_targets(n.ast))}
             for c in calls:
                 p = paths_avoiding(cfg, c, set(stores), set(), follow=lambda a, lab, b: lab != "exc") if stores else None
